@@ -102,7 +102,8 @@ def gen_registry(rng, n, **sigkw):
     deny = [d for d in deny if d not in reqd]
     regs.append({'op': 'register', 'name': leaf, 'nameValid': True, 'module': module, 'moduleValid': True,
                  'sig': sig, 'allow': allow, 'deny': deny, 'listTypesOk': True, 'obj': len(regs),
-                 'method': False, '_kind': kind, '_api': api, '_pymodule': module, '_selector': sel})
+                 'method': False, '_kind': kind, '_api': api, '_pymodule': module, '_selector': sel,
+                 '_direct': rng.random() < 0.4})
   return regs
 
 
@@ -224,6 +225,10 @@ def gen_class_with_method(rng, obj0, module='m'):
   mop = {'op': 'register', 'name': mname, 'nameValid': True, 'module': module, 'moduleValid': True, 'sig': msig,
          'allow': [], 'deny': [], 'listTypesOk': True, 'obj': obj0, 'method': False, 'methods': [],
          '_skip_impl': True, '_selector': f'{module}.{cname}.{mname}', '_kind': 'fn', '_api': 'method'}
+  if rng.random() < 0.25:
+    # a static method (`@staticmethod` over `@gin.register`): a method of its class like any other
+    mop['sig'] = {'pos': [['y', None], ['x', {'v': 1}]], 'kwonly': [], 'varargs': False, 'varkw': False}
+    mop['_static'] = True
   r = rng.random()
   if r < 0.25:     # the method's own allow/deny list stays in force after it moved under its class
     mop['deny'] = [rng.choice(['x', 'y'])]
@@ -290,7 +295,8 @@ def gen_hook(rng, regs, scopes, w_raise=0.1, earlier=None):
       ks0, reg = rng.choice(earlier)
       ks = {'scope': ks0['scope'], 'sel': spell(rng, reg['_selector']) if rng.random() < 0.7 else reg['_selector'],
             'arg': ks0['arg'], '_form': rng.choice(['str', 'tuple']), '_reg': reg['obj']}
-      val = gen_value(rng, 1)
+      # two hooks updating one parameter conflict whether or not they agree on the value
+      val = ks0['_val'] if ('_val' in ks0 and rng.random() < 0.5) else gen_value(rng, 1)
     else:
       b = gen_bind_attempt(rng, regs, scopes)
       if rng.random() < 0.85 and b['_pclass'] != 'valid':
@@ -302,6 +308,7 @@ def gen_hook(rng, regs, scopes, w_raise=0.1, earlier=None):
     if ident in seen:
       continue
     seen.add(ident)
+    ks['_val'] = val
     ret.append([ks, val])
   return {'op': 'hook', 'ret': ret, 'raises': False}
 
